@@ -2,7 +2,8 @@
 //!   join_poly_pixels w tx ty x1 y1 ...   pixels() of the translated styled polyline, in order
 //!   join_poly_rects  w x1 y1 ...         the fill_solid rectangles of draw(), in order (x:y:width)
 //!   join_poly_bbox   w x1 y1 ...         styled bounding box
-//! and the implementation-side search p_thick (geometric reference, independent of the model):
+//! and the implementation-side search p_thick (geometric reference, independent of the model; the bounding box part
+//! of it is C02's and lives in c02_join.rs):
 //!   p_thick poly <w> x1 y1 ...           thick polyline
 //!   p_thick tri <w> <align> x1 y1 x2 y2 x3 y3     stroked triangle (align 0 inside 1 center 2 outside)
 use crate::util::*;
@@ -144,10 +145,6 @@ fn p_thick(a: &[&str]) -> String {
             if m2 != t.map {
                 return format!("FAIL pixels() and draw() differ ({} vs {} px)", m2.len(), t.map.len());
             }
-            let bb = Polyline::new(&v).into_styled(st).bounding_box();
-            if let Some(((y, x), _)) = t.map.iter().find(|((y, x), _)| !bb.contains(Point::new(*x, *y))) {
-                return format!("FAIL pixel ({},{}) outside the styled bounding box {:?}", x, y, bb);
-            }
             if v.len() == 2 && w >= 2 && (v[0].x == v[1].x || v[0].y == v[1].y) {
                 // an axis parallel polyline of one segment is that thick line
                 let mut tl = NativeTarget::<Rgb565>::new(big());
@@ -189,10 +186,6 @@ fn p_thick(a: &[&str]) -> String {
             }
             if m2 != t.map {
                 return format!("FAIL pixels() and draw() differ ({} vs {} px)", m2.len(), t.map.len());
-            }
-            let bb = tri.into_styled(st).bounding_box();
-            if let Some(((y, x), _)) = t.map.iter().find(|((y, x), _)| !bb.contains(Point::new(*x, *y))) {
-                return format!("FAIL pixel ({},{}) outside the styled bounding box {:?}", x, y, bb);
             }
             // clockwise order (y down): area_doubled > 0
             let area = |p: &[Point]| -> i64 {
